@@ -928,6 +928,25 @@ func c02VirtualView(r *core.Run) {
 			}
 			if !extended {
 				numbering[g] = true
+				// a wrapper that assembles the order from other producers: those count too
+				for _, ret := range core.Returns(g) {
+					if len(ret.Results) > 0 {
+						chase(ret.Results[0], d+1)
+					}
+				}
+			}
+		}
+		// the list is handed in by the callers
+		if prm, isP := core.Unwrap(v).(*ssa.Parameter); isP {
+			for i, q := range prm.Parent().Params {
+				if q != prm {
+					continue
+				}
+				for _, site := range callersOf(p, prm.Parent()) {
+					if args := core.CallArgs(site.Common()); i < len(args) {
+						chase(args[i], d+1)
+					}
+				}
 			}
 		}
 	}
@@ -968,6 +987,16 @@ func c02VirtualView(r *core.Run) {
 		})
 		if orders {
 			nOrder++
+			// a wrapper that only assembles the lists of other ordering functions reads no successors itself
+			callsOrdering := false
+			core.InstrsOf(fn, func(in ssa.Instruction) {
+				if c := core.CallOf(in); c != nil && numbering[core.StaticCallee(c)] && core.StaticCallee(c) != fn {
+					callsOrdering = true
+				}
+			})
+			if callsOrdering {
+				viaAccessor = true
+			}
 			r.Check(direct == token.NoPos && viaAccessor, "C02.SWAP", fnm+"#block-order-through-virtual-view", fn.Pos(), "the block order is computed from the virtual successor order", "the block order is computed from the real successor list (or without "+core.FuncName(accessor)+"): blocks of an exchanged branch are numbered in source order while the If line prints the exchanged order, so the two spellings of one test get different IR")
 		}
 	}
